@@ -223,6 +223,9 @@ class QBitsTensor(QTensor):
             t = quantize_weight(t.to(self.dtype), self.qtype, self.axis, self._group_size)
         if type(t) != QBitsTensor:
             t = t.qbits_tensor()
+        if t.device != self.device:
+            # The content comes from another device: the Tensor stays where it is
+            t = t.to(self.device)
         # The inner tensors might be shared with other quantized tensors: they must not be modified
         self._data = t._data
         self._scale = t._scale
